@@ -213,6 +213,8 @@ def main():
     ap.add_argument("--replay")
     ap.add_argument("--jobs", type=int, default=int(os.environ.get("VERIF_JOBS", "16")))
     ap.add_argument("--no-bounded", action="store_true")
+    ap.add_argument("--write-baseline", action="store_true",
+                    help="record which obligations are proved on the (unchanged) tree in baseline/<PROP>.json")
     a = ap.parse_args()
     prop = a.prop
     tier = a.tier if a.tier in ("quick", "thorough") else "quick"
@@ -238,6 +240,9 @@ def main():
     timeout_ms = 20000 if tier == "quick" else 120000
     os.environ["PYVC_TIMEOUT_MS"] = str(timeout_ms)
     findings = load_findings()
+    bfile = os.path.join(ROOT, "baseline", f"{prop}.json")
+    baseline = json.load(open(bfile)) if os.path.exists(bfile) else {}
+    new_baseline = {}
     violations = []      # (text, replayfile)
     known_lines = []
     checker_errors = []
@@ -287,6 +292,9 @@ def main():
                 undecided.append(f"{r['function']}::{o['name']} ({o.get('reason', '')[:80]})")
         if r["status"] == "undecided" and not any(o["status"] == "unknown" for o in r.get("obligations", [])):
             undecided.append(f"{r['function']}: {r.get('reason', '')[:160]}")
+        for o in r.get("obligations", []):
+            d = new_baseline.setdefault(r["function"], {}).setdefault(_generic(o["name"]), {"proved": 0, "other": 0})
+            d["proved" if o["status"] == "proved" else "other"] += 1
         failed = [o for o in r.get("obligations", []) if o["status"] in ("failed", "candidate")]
         for o in failed:
             key = f"{r['function']}::{o['name']}"
@@ -340,7 +348,23 @@ def main():
                 violations.append((f"obligation {key} fails (verifier counter-model, not reproduced on the real code)",
                                    rf, " no-failing-input-found"))
             else:
-                undecided.append(f"{key}: E-matching saturated without refutation; candidate model not reproduced")
+                b = baseline.get(r["function"], {}).get(_generic(o["name"]))
+                if b is not None and b.get("other", 0) == 0 and b.get("proved", 0) > 0:
+                    # the obligation is proved on every path of the unchanged tree (committed baseline) and is no
+                    # longer refutable: the solver stops with a counter-model candidate that satisfies every
+                    # instantiated clause - reported, without a concrete failing input
+                    rf = os.path.join(ROOT, "replays", f"{prop}_{_slug(key)}.json")
+                    json.dump({"kind": "failed-obligation", "property": prop, "obligation": key, "where": o["where"],
+                               "function": r["function"], "status": o["status"], "backend": o["backend"],
+                               "solver_reason": o.get("reason", ""),
+                               "solver_output": minfo.get("model") if minfo else None,
+                               "note": "proved on the unchanged tree (baseline/%s.json), not provable now; the solver's "
+                                       "candidate counter-model could not be turned into a failing input" % prop},
+                              open(rf, "w"), indent=1, default=str)
+                    violations.append((f"obligation {key} was proved on the unchanged tree and is refuted-by-candidate "
+                                       f"now ({o.get('reason', '')[:80]})", rf, " no-failing-input-found"))
+                else:
+                    undecided.append(f"{key}: E-matching saturated without refutation; candidate model not reproduced")
 
     # ---------------- extras (frame checker, finite tables, ...)
     extra_summ = []
@@ -453,6 +477,9 @@ def main():
           "assumptions": assumptions, "wall_s": round(wall, 2), "violations": len(violations)}
     json.dump(ev, open(os.path.join(ROOT, "evidence", f"{prop}.json"), "w"), indent=1, default=str)
 
+    if a.write_baseline:
+        os.makedirs(os.path.join(ROOT, "baseline"), exist_ok=True)
+        json.dump(new_baseline, open(bfile, "w"), indent=1, sort_keys=True)
     if checker_errors:
         for e in checker_errors:
             print("CHECKER-ERROR:", e)
@@ -468,6 +495,11 @@ def main():
             print(f"VIOLATION property={prop} replay={rf}{suffix}")
         sys.exit(1)
     sys.exit(0)
+
+
+def _generic(name):
+    """obligation name without line numbers and event indices (stable across harmless edits)"""
+    return re.sub(r"\[\d+(,\d+)?\]", "[]", re.sub(r"@\d+", "@", name))
 
 
 def _slug(s):
